@@ -43,3 +43,4 @@ run D15c 6522497 "C20"
 git -C /repo status --short
 echo DONE | tee -a $OUT
 run D16 9329cef "C13"
+run D17 2efc289 "C07 C13 C01"
